@@ -1,9 +1,9 @@
-\* intended design: groups of 2..3 participants, at most one idle participant at the start, 2 mutations, audit log of capacity 5
+\* intended design: groups of 2..3 participants, every mix of Active and Inactive participants at the start (up to renaming), 2 mutations, audit log of capacity 5
 SPECIFICATION Spec
 CONSTANTS
   Sizes = {2, 3}
   InitStatuses = {"Active", "Inactive"}
-  MaxInitIdle = 1
+  MaxInitIdle = 3
   ArgIds = {1, 2, 3, 9}
   NewIds = {1, 4}
   Tokens = {"S", "F", "P"}
